@@ -90,6 +90,8 @@ def run(ctx):
     from . import e2e_rules as _e2e
 
     ctx.attempt(_e2e.iterations_rule, ctx, 'R15.E1')
+    # a damage analysis: going back to iteration k brings back damage, displacement and (split-free model) the strain energy
+    ctx.attempt(_e2e.phasefield_rule, ctx, 'R15.E2')
     ctx.attempt(save_restore_round_trip_rule, ctx)
     from . import c17 as _c17
 
